@@ -51,6 +51,11 @@ add('C20', 'real binary + E-CHTCP + hook', 'exploration',
     'Trusted: the fake ClickHouse wire server as the observer of database interactions; route table = what mux.Walk reports for the router main registered. Exhaustive over the dumped route table x the header list of the tier.',
     'runtime monitoring of the real binary: route walk x header matrix with a database-interaction monitor', 'DESIGN §3 C20, §5')
 
+add('C07', 'E-RUN+E-SQLDRV+E-CHSQL+E-REF(logq)', 'translation_validation',
+    'Translation validation by execution: queries are generated from an abstract LogQL model (matchers = != =~ !~ incl. >= 9 of them, line filters |= != |~ !~, label filters with and/or/parentheses over string and numeric comparisons, json with parameters incl. nested paths and array indexes, regexp with named groups, drop), rendered to text, parsed and planned by the real qryn chain exactly as the query_range service does; the SQL it sends is executed by the reference ClickHouse-subset interpreter on generated tables (hostile label values/lines, samples at the window edges, metric-type series) and the rows coming out of the real row scanner are compared with a direct LogQL evaluator: same lines, each under its own labels, limit = newest/oldest. Violations are minimised by deleting stages and signed with the minimal failing shape.',
+    'Trusted: E-CHSQL as the model of ClickHouse (DESIGN Appendix A, self-tested), the direct evaluator (DESIGN Appendix E); judged cases are built so that every reasonable reading of LogQL agrees (regex anchoring, matchers on absent labels are probes); window granularity is one second as in the service.',
+    'runtime translation validation: generated SQL executed by a reference interpreter vs direct evaluation on the same tables', 'DESIGN §3 C07')
+
 NOT_APPLICABLE = {
 }
 ALL = ['C%02d' % i for i in range(1, 21)]
